@@ -255,6 +255,23 @@ func genScenario() *netctl.Scenario {
 		Horizon: 90*time.Second + boundGroup,
 		Setup: func(x *netctl.Exec) {
 			cfgs := gcfgs()
+			if only := os.Getenv("C13_CFG"); only != "" {
+				// Development aid: restrict the family to the named
+				// configurations (comma separated, exact names) to push the
+				// deviation levels deeper on a subset. Artefacts written with
+				// it replay only with the same setting.
+				var sub []gcfg
+				for _, c := range cfgs {
+					for _, n := range strings.Split(only, ",") {
+						if c.name == n {
+							sub = append(sub, c)
+						}
+					}
+				}
+				if len(sub) > 0 {
+					cfgs = sub
+				}
+			}
 			var cfgNames []string
 			for _, c := range cfgs {
 				cfgNames = append(cfgNames, c.name)
